@@ -220,6 +220,12 @@ func checkC07(c *Ctx) {
 	// ---- C07-UNS: an unsigned value does not pass through a signed integer on its way to float64
 	c.checkUnsignedToFloat(scope)
 
+	// ---- C07-DIV0: the float quotient of two integers is produced only after the integer modulo ran
+	c.checkFloatQuotientAfterModulo(scope)
+
+	// ---- C07-ID: comparison never short-cuts on object identity (NaN is unequal to itself)
+	c.checkNoIdentityShortcut()
+
 	// ---- C07-OPS (AST)
 	c.checkCompareOps()
 
@@ -853,4 +859,95 @@ func (c *Ctx) checkUnsignedToFloat(scope []*ssa.Function) {
 	c.check(direct >= 2, "C07-UNS", "numerictower.go", "unsigned operands are promoted with float64(u)", token.NoPos,
 		fmt.Sprintf("%d direct uint64→float64 promotions found, none routed through a signed integer", direct),
 		fmt.Sprintf("only %d direct uint64→float64 promotions found in the numeric tower", direct))
+}
+
+// checkFloatQuotientAfterModulo: C07-DIV0. Integer division by zero is an error
+// because the modulo (or the integer division) panics and the builtin barrier
+// turns the panic into an error. The float branch `float64(a)/float64(b)` would
+// quietly give Inf or NaN, so it must be reached only on the `a % b != 0` side
+// of the modulo test, i.e. after the modulo has been evaluated.
+func (c *Ctx) checkFloatQuotientAfterModulo(scope []*ssa.Function) {
+	n := 0
+	for _, f := range scope {
+		eachInstr(f, func(b *ssa.BasicBlock, i int, in ssa.Instruction) {
+			q, ok := in.(*ssa.BinOp)
+			if !ok || q.Op != token.QUO || !isFloatT(q.X.Type()) {
+				return
+			}
+			cx, okx := q.X.(*ssa.Convert)
+			cy, oky := q.Y.(*ssa.Convert)
+			if !okx || !oky {
+				return
+			}
+			if _, _, ix := intBits(cx.X.Type()); !ix {
+				return
+			}
+			if _, _, iy := intBits(cy.X.Type()); !iy {
+				return
+			}
+			n++
+			guarded := guardedBy(b, func(cond ssa.Value) (bool, bool) {
+				bo, ok := cond.(*ssa.BinOp)
+				if !ok || (bo.Op != token.EQL && bo.Op != token.NEQ) {
+					return false, false
+				}
+				k, isK := constIntOf(bo.Y)
+				rem, isRem := bo.X.(*ssa.BinOp)
+				if !isK || k != 0 || !isRem || rem.Op != token.REM {
+					return false, false
+				}
+				if !sameFieldLoad(rem.X, cx.X) || !sameFieldLoad(rem.Y, cy.X) {
+					return false, false
+				}
+				return true, bo.Op == token.NEQ
+			})
+			c.check(guarded, "C07-DIV0", fnName(f), "float quotient of two integers "+typeShort(cx.X.Type()), q.Pos(),
+				"reached only on the `a % b != 0` side of the modulo test: a zero divisor has already raised the division error",
+				"the float quotient of two integers can be reached without the integer modulo having been evaluated (for instance behind a `b != 0 &&` guard): an integer divided by the integer zero quietly becomes +Inf, -Inf or NaN instead of an error")
+		})
+	}
+	if n < 2 {
+		c.undecided("C07-DIV0", "numerictower.go", "float quotients of integers", token.NoPos, fmt.Sprintf("only %d found", n))
+	}
+}
+
+// checkNoIdentityShortcut: C07-ID.
+func (c *Ctx) checkNoIdentityShortcut() {
+	n, nBad := 0, 0
+	for _, f := range c.filesFuncs("comparisons.go") {
+		eachInstr(f, func(b *ssa.BasicBlock, i int, in ssa.Instruction) {
+			bo, ok := in.(*ssa.BinOp)
+			if !ok || (bo.Op != token.EQL && bo.Op != token.NEQ) {
+				return
+			}
+			if !types.IsInterface(bo.X.Type()) || !types.IsInterface(bo.Y.Type()) {
+				return
+			}
+			n++
+			isSentinel := func(v ssa.Value) bool {
+				if isNilConst(v) {
+					return true
+				}
+				v = stripIface(v)
+				if ld, ok := v.(*ssa.UnOp); ok && ld.Op == token.MUL {
+					if _, ok := ld.X.(*ssa.Global); ok {
+						return true
+					}
+				}
+				return false
+			}
+			if isSentinel(bo.X) || isSentinel(bo.Y) {
+				return
+			}
+			if isErrorType(bo.X.Type()) || isErrorType(bo.Y.Type()) {
+				return
+			}
+			nBad++
+			c.bad("C07-ID", fnName(f), "operands compared by identity", bo.Pos(),
+				"two values are compared with `==` on the interface values inside the comparison code: when both are the same object the result is decided without looking at the value, so a NaN bound to a variable compares equal to itself")
+		})
+	}
+	if nBad == 0 {
+		c.ok("C07-ID", "comparisons.go", "operands compared by identity", token.NoPos, fmt.Sprintf("%d interface comparisons in the comparison code, all against nil or a sentinel", n))
+	}
 }
